@@ -3,6 +3,7 @@ package main
 import (
 	"bytes"
 	"encoding/json"
+	"go/types"
 	"go/token"
 	"os"
 	"path/filepath"
@@ -111,5 +112,21 @@ func init() {
 		m.stubs["model:json.Unmarshal(plain quoted ASCII string)"]++
 		*ptr = StrFromTerms(append([]*Term(nil), bs[1:n-1]...))
 		return Iface{}
+	})
+}
+
+func init() {
+	// context.WithValue checks key comparability through reflectlite; the model builds the valueCtx directly
+	reg("context.WithValue", func(m *Machine, fr *frame, a []Value) Value {
+		parent := a[0].(Iface)
+		if parent.T == nil {
+			panic(targetPanic{Iface{T: m.P.rtErr, V: CStr("cannot create context from nil parent")}})
+		}
+		if a[1].(Iface).T == nil {
+			panic(targetPanic{Iface{T: m.P.rtErr, V: CStr("nil key")}})
+		}
+		t := m.P.pkgs["context"].Type("valueCtx").Object().Type()
+		var cell Value = Struct{parent, a[1], a[2]}
+		return Iface{T: types.NewPointer(t), V: &cell}
 	})
 }
